@@ -126,13 +126,17 @@ func (r *Report) classify(obls, covers, canaries []*Obligation, res map[*Obligat
 		// violation
 		r.total++
 		r.records = append(r.records, rec)
-		path := r.writeReplay(o, s)
-		suffix := ""
-		confirmed := false
+		var ro replayOutcome
 		if s.Status == "sat" {
-			confirmed = r.tryReplay(o, s, path)
+			if fr := r.resultOf(o); fr != nil {
+				ro = r.replayObligation(o, fr)
+			}
+		} else {
+			ro.Reason = "the solver gave no model (" + s.Status + ")"
 		}
-		if !confirmed {
+		path := r.writeReplay(o, s, ro)
+		suffix := ""
+		if !ro.Confirmed {
 			suffix = " no-failing-input-found"
 		}
 		r.say("VIOLATION property=%s replay=%s obligation=%s status=%s%s", r.prop, path, o.Name, s.Status, suffix)
@@ -217,7 +221,18 @@ func (r *Report) exitCode() int {
 	return 0
 }
 
-func (r *Report) writeReplay(o *Obligation, s SolveResult) string {
+func (r *Report) resultOf(o *Obligation) *FuncResult {
+	for _, fr := range r.results {
+		for _, x := range fr.Obls {
+			if x == o {
+				return fr
+			}
+		}
+	}
+	return nil
+}
+
+func (r *Report) writeReplay(o *Obligation, s SolveResult, ro replayOutcome) string {
 	dir := filepath.Join(r.vd, "replay", r.prop)
 	os.MkdirAll(dir, 0755)
 	path := filepath.Join(dir, sanitize(o.Name)+".json")
@@ -238,6 +253,7 @@ func (r *Report) writeReplay(o *Obligation, s SolveResult) string {
 		"solver_output": firstLines(s.Output, 60),
 		"model_inputs":  model,
 		"goal":          o.Goal,
+		"replay":        ro,
 	}
 	writeJSON(path, out)
 	return path
